@@ -9,6 +9,8 @@ from common import R, Rvec, Cx, fl, cfl, ModelError
 from common import all_pre_build as pre_build  # noqa: E402,F401  (wiring + hc + fncalls translators)
 
 LEAN_MODULES = ["PyomaVerif.Props.C07", "PyomaVerif.Props.C07Bell", "PyomaVerif.Mutants.C07", "PyomaVerif.Props.WiringMpe", "PyomaVerif.Props.C07All", "PyomaVerif.Props.WiringCalls", "PyomaVerif.Props.C07Rect", "PyomaVerif.Props.WiringFn"]
+LEAN_MODULES = ["PyomaVerif.Props.C07", "PyomaVerif.Props.C07Bell", "PyomaVerif.Mutants.C07", "PyomaVerif.Props.WiringMpe", "PyomaVerif.Props.C07All", "PyomaVerif.Props.WiringCalls",
+                "PyomaVerif.Props.C07Floor"]
 THEOREMS = [
     # the exact sequence of core-routine calls of the run()/mpe() body and the exact set of parameters bound at each (regenerated call table)
     "PV.WiringCalls.C06_mpe_calls",
@@ -35,6 +37,11 @@ THEOREMS = [
     "PV.C07Bell.C07_bell_dominant",
     "PV.C07Bell.C07_fsdd_value",
     "PV.C07Bell.C07_fsdd_value_ref",
+    "PV.C07Bell.C07_floor_apply",
+    "PV.C07Bell.C07_floor_eigen",
+    "PV.C07Bell.C07_floor_quadForm",
+    "PV.C07Bell.C07_sdof_floor",
+    "PV.C07Bell.C07_sdof_floor_proportional",
     "PV.C07Bell.C07_bell_structured",
     "PV.C07Bell.C07_bell_orthonormal",
     "PV.C07Bell.C07_structured_singular",
@@ -846,6 +853,85 @@ THEOREMS += ["PV.WiringDefaults.C07_defaults"]
 
 def correspondence(ctx):
     defaults_stream.correspondence(ctx, props=('C07',))
+def _floor_case(ctx):
+    """depth round 2 (g19, C07_sdof_floor): the property's own spectrum Sy(f) = S(f) phi phi^T + eta I (one mode, real shape,
+    full-rank floor).  (1) what LAPACK records is what the theorem assumes: first stored vector a multiple of phi, stored
+    value^2 = S |phi|^2 + eta, the other stored vectors orthogonal to phi; (2) the real SDOF_bellandMS AND the model op
+    sdof_bell give the closed form of the theorem: EFDD S|phi|^2 + eta on the band, 0 outside; FSDD |c|^2 |phi|^2 times that."""
+    fdd = _fdd()
+    rng = ctx.rng
+    g = ctx.nprng()
+    nch = rng.randint(2, 5)
+    nf = rng.randint(16, 48)
+    fs = rng.choice([10.0, 100.0, 37.5])
+    fnr = rng.uniform(0.1, 0.4)
+    nx = 2 * (nf - 1)
+    freq = np.arange(nf) * fs / nx
+    w, wn, xi = 2 * np.pi * freq, 2 * np.pi * fnr * fs, rng.uniform(0.02, 0.1)
+    S = 1 / ((wn**2 - w**2) ** 2 + (2 * xi * wn * w) ** 2)
+    S = S * 10.0 ** rng.uniform(-6, 6) / S.max()
+    phi = g.standard_normal(nch)
+    eta = S.max() * 10.0 ** rng.uniform(-8, -2)
+    Sy = (np.einsum("i,j,f->ijf", phi, phi, S) + eta * np.eye(nch)[:, :, None]).astype(complex)
+    dt = 1 / fs
+    method = rng.choice(["FSDD", "EFDD"])
+    cm = rng.choice([1, 1, 2])
+    MAClim = rng.choice([0.85, rng.uniform(0.0, 0.99)])
+    sel = fnr * fs * rng.uniform(0.95, 1.05)
+    DF = rng.uniform(0.03, 0.3) * fs
+    c = complex(rng.uniform(0.3, 2), rng.choice([0.0, rng.uniform(-1, 1)]))
+    phi_FDD = c * phi
+    real_svd = np.linalg.svd
+    rec = []
+
+    def spy(a, *args, **kw):
+        out = real_svd(a, *args, **kw)
+        rec.append((np.array(out[0]), np.array(out[1])))
+        return out
+
+    np.linalg.svd = spy
+    try:
+        bell, ms = fdd.SDOF_bellandMS(Sy, dt, sel, phi_FDD, method, cm, MAClim, DF)
+    finally:
+        np.linalg.svd = real_svd
+    n2 = float(phi @ phi)
+    top = S * n2 + eta
+    # (1) the hypotheses hvec / hval / horth of C07_sdof_floor against the recorded SVD (stored vectors are conj(U))
+    hyp = len(rec) == nf
+    for l in range(nf if hyp else 0):
+        U, sv = rec[l]
+        u0 = np.conj(U[:, 0])
+        hyp = hyp and abs(abs(np.vdot(phi, u0)) ** 2 / (n2 * np.vdot(u0, u0).real) - 1) <= 1e-9
+        hyp = hyp and abs(sv[0] - top[l]) <= 1e-9 * top[l]
+        for k in range(1, cm):
+            hyp = hyp and abs(np.vdot(phi, np.conj(U[:, k]))) <= 1e-7 * math.sqrt(n2)
+    ctx.corr("np.linalg.svd[floor spectrum: dominant pair first, rest orthogonal]", bool(hyp), {"nch": nch, "nf": nf, "cm": cm}, None, None,
+             ("floor-svd", nch, cm))
+    sq = [np.sqrt(Sv) for (_, Sv) in rec]
+    out = ctx.model(
+        "sdof_bell",
+        method=method, nch=nch, cm=cm, nf=nf, dt=R(dt),
+        Sy=[[[Cx(Sy[i, j, l]) for l in range(nf)] for j in range(nch)] for i in range(nch)],
+        Sval=[[R(sq[l][k]) for l in range(nf)] for k in range(cm)],
+        Svec=[[[Cx(np.conj(rec[l][0][i, k])) for l in range(nf)] for i in range(nch)] for k in range(cm)],
+        phi=[Cx(z) for z in phi_FDD], sel=R(sel), DF=R(DF), MAClim=R(MAClim),
+    )
+    mb = np.array([cfl(z) for z in out["bell"]])
+    band = np.zeros(nf, bool)
+    band[out["lo"]:out["hi"]] = True
+    want = np.where(band, top, 0.0) * (abs(c) ** 2 * n2 if method == "FSDD" else 1.0)
+    sc = max(np.abs(want).max(), 1e-300)
+    ok = bell.shape == want.shape and np.array_equal(bell != 0, want != 0) and np.abs(bell - want).max() <= 1e-9 * sc \
+        and np.abs(mb - want).max() <= 1e-9 * sc and np.array_equal(mb != 0, want != 0)
+    ctx.corr("fdd.SDOF_bellandMS[floor spectrum = closed form of C07_sdof_floor]", bool(ok),
+             {"method": method, "nch": nch, "nf": nf, "cm": cm, "MAClim": MAClim, "sel": sel, "DF": DF, "dt": dt, "eta_rel": eta / S.max()},
+             {"lo": out["lo"], "hi": out["hi"]}, {"support": np.nonzero(bell)[0].tolist()}, ("floor", method, nch, cm, bool(band.any())))
+    ctx.count(f"bell_floor_{method}")
+
+
+def correspondence(ctx):
+    for _ in range(ctx.n(12, 120)):
+        _floor_case(ctx)
     for _ in range(ctx.n(30, 300)):
         _bell_case(ctx)
     for _ in range(ctx.n(16, 160)):
